@@ -201,7 +201,7 @@ func (set *threadSafeSet) CartesianProduct(other Set) Set {
 
 func (set *threadSafeSet) ToSlice() []any {
 	set.RLock()
-	keys := make([]any, 0, set.Cardinality())
+	keys := make([]any, 0, len(set.s))
 	for elem := range set.s {
 		keys = append(keys, elem)
 	}
